@@ -902,3 +902,99 @@ Proof.
     exists (body1 ++ [d]), None, b1', b2'. split; [exact Hr1|]. split; [rewrite Hr2, Hb; reflexivity|].
     symmetry. exact HT'.
 Qed.
+
+(* ---------- 3. the Ingest loop on the bufio model ---------- *)
+
+Lemma bufio_loop_S f d cb k b : bufio_loop (S f) d cb k b =
+  match read_string_b d b with
+  | RSPanic p => ([], BPanic p)
+  | RSOutOfFuel => ([], BOutOfFuel)
+  | RSOk _ (Some e) _ => ([], BReadErr e)
+  | RSOk line None b' =>
+      if cb k line
+      then let (ls, e) := bufio_loop f d cb (S k) b' in (line :: ls, e)
+      else ([line], BCallbackErr k)
+  end.
+Proof. reflexivity. Qed.
+
+(* what Ingest returns: the failing callback's error, or ReadString's error unchanged *)
+Definition ret_of (fe : error) (r : ret) : bret :=
+  match r with
+  | RetCallbackErr k => BCallbackErr k
+  | RetEOF => BReadErr fe
+  | RetOutOfFuel => BOutOfFuel
+  end.
+
+Lemma records_no_delim d t : ~ In d t -> records d t = [].
+Proof. intros H. unfold records. rewrite (frames_no_delim d t H). reflexivity. Qed.
+
+Lemma records_body d body rest : ~ In d body ->
+  records d ((body ++ [d]) ++ rest) = (body ++ [d]) :: records d rest.
+Proof.
+  intros H. unfold records. rewrite <- app_assoc. cbn [app]. rewrite (frames_body d body rest H). reflexivity.
+Qed.
+
+Lemma bufio_loop_spec d cb : forall fuel k b,
+  wf b -> progress_ok (chunks (rsrc b)) -> length (T b) < fuel ->
+  bufio_loop fuel d cb k b =
+  (fst (deliver cb k (records d (T b))), ret_of (ferr (rsrc b)) (snd (deliver cb k (records d (T b))))).
+Proof.
+  induction fuel as [|f IH]; intros k b Hwf Hpr Hfuel; [lia|].
+  rewrite bufio_loop_S.
+  destruct (read_string_b_spec d b Hwf) as (out & e & b' & -> & Hpost).
+  pose proof (cf_post_wf d b out e b' Hwf Hpost) as Hwf'.
+  destruct Hpost as (Hb' & Hl' & Hf' & HT & Hcase). destruct e as [e|].
+  - destruct Hcase as (Hnd & He' & Hbd' & [(-> & Hex)|(_ & Hnp)]); [|contradiction].
+    assert (HTb : T b = out).
+    { rewrite HT. unfold T. rewrite Hbd', (stream_exhausted _ Hex). apply app_nil_r. }
+    rewrite HTb, (records_no_delim d out Hnd). reflexivity.
+  - destruct Hcase as ((body & -> & Hnb) & _ & Hpr').
+    rewrite HT, (records_body d body (T b') Hnb). cbn [deliver].
+    destruct (cb k (body ++ [d])); [|reflexivity].
+    rewrite (IH (S k) b' Hwf' (Hpr' Hpr)).
+    + rewrite Hf'. destruct (deliver cb (S k) (records d (T b'))) as [l r]. reflexivity.
+    + apply (f_equal (@length ascii)) in HT. rewrite !app_length in HT. cbn [length] in HT. lia.
+Qed.
+
+(* Ingest over any script (final error io.EOF or not; the last read may carry bytes): the records
+   delivered are those [ingest] delivers from the script's bytes, whatever the buffer size; Ingest
+   returns the failing callback's error, else the script's final error UNCHANGED -- and whatever
+   followed the last delimiter is dropped, also when that error is not io.EOF. *)
+Theorem bufio_ingest_src_spec size rd d cb : ferr rd <> EBufferFull -> progress_ok (chunks rd) ->
+  bufio_ingest_src size rd d cb =
+  (fst (ingest (pending rd) d cb), ret_of (ferr rd) (snd (ingest (pending rd) d cb))).
+Proof.
+  intros Hne Hpr. unfold bufio_ingest_src.
+  destruct (new_reader_facts rd size) as (_ & _ & _ & HT & _).
+  rewrite (bufio_loop_spec d cb _ 0 _ (new_reader_wf rd size Hne) Hpr) by (rewrite HT; lia).
+  rewrite HT, ingest_records, concat_pending. reflexivity.
+Qed.
+
+Lemma deliver_not_out_of_fuel cb : forall rs k, snd (deliver cb k rs) <> RetOutOfFuel.
+Proof.
+  induction rs as [|r rs IH]; intros k; [discriminate|].
+  cbn [deliver]. destruct (cb k r); [|discriminate].
+  specialize (IH (S k)). destruct (deliver cb (S k) rs) as [l e]. exact IH.
+Qed.
+
+(* the loop theorem: for every buffer size and every chunking *)
+Theorem bufio_ingest_eq size cs d cb : progress_ok cs ->
+  bufio_ingest size cs d cb = (fst (ingest cs d cb), Some (snd (ingest cs d cb))).
+Proof.
+  intros Hpr. unfold bufio_ingest.
+  rewrite (bufio_ingest_src_spec size (eof_source cs) d cb); [|discriminate|exact Hpr].
+  assert (E : ingest (pending (eof_source cs)) d cb = ingest cs d cb).
+  { rewrite !ingest_records, concat_pending. unfold stream, eof_source. cbn [chunks last]. rewrite app_nil_r. reflexivity. }
+  rewrite E. cbn [ferr eof_source]. pose proof (ingest_never_out_of_fuel cs d cb) as Hn.
+  destruct (ingest cs d cb) as [l r]. cbn [fst snd] in *. destruct r; [reflexivity|reflexivity|contradiction].
+Qed.
+
+Lemma nonempty_progress_ok cs : Forall (fun c => c <> []) cs -> progress_ok cs.
+Proof.
+  induction 1 as [|c cs Hc _ IH]; [exact I|]. apply progress_ok_nonempty; assumption.
+Qed.
+
+(* os.File's contract: (0, nil) only for len(p) = 0, i.e. no empty chunk at all *)
+Corollary bufio_ingest_eq_file size cs d cb : Forall (fun c => c <> []) cs ->
+  bufio_ingest size cs d cb = (fst (ingest cs d cb), Some (snd (ingest cs d cb))).
+Proof. intros H. apply bufio_ingest_eq. exact (nonempty_progress_ok cs H). Qed.
